@@ -153,6 +153,22 @@ func runC02(r *Report, rng *rand.Rand, thorough bool) {
 				outs := map[string]int{ref: 1}
 				runs := 1
 				for i := 0; i < kIn; i++ {
+					if i%2 == 1 {
+						// another configuration generated in between must not change the next output of this one
+						f := cfg
+						switch (i / 2) % 3 {
+						case 0:
+							f.OutputOptions.NameNormalizer = "ToCamelCaseWithInitialisms"
+						case 1:
+							f.OutputOptions.ResponseTypeSuffix = "Resp"
+							f.OutputOptions.ClientTypeName = "OtherClient"
+						case 2:
+							f.ImportMapping = map[string]string{"other.yaml": "example.com/zzz", "third.yaml": "-", "fourth.yaml": "example.com/aaa"}
+							f.Compatibility.AlwaysPrefixEnumValues = true
+						}
+						_ = genCall{Spec: d.spec, Cfg: f}.run()
+						r.Dist["interleaved_other_configuration"]++
+					}
 					outs[call.run()]++
 					runs++
 				}
@@ -206,7 +222,7 @@ func runC02(r *Report, rng *rand.Rand, thorough bool) {
 			}
 		}
 	}
-	r.Rule = fmt.Sprintf("each (document, configuration, skip-fmt) generated %d+ times in one process, in fresh processes (fresh hash seeds) and from %d random permutations of every JSON object's members; all outputs (or error strings) must be byte-identical; documents: one wide document with >= 3 entries in every map the generator walks (paths, operations, properties, content types, responses, headers, import mappings, discriminator mappings, x-go-type imports, encodings, security requirements, extensions), its variants with known order dependences, and random documents; non-trivial = generation succeeds", kIn+1, kPerm)
+	r.Rule = fmt.Sprintf("each (document, configuration, skip-fmt) generated %d+ times in one process (every second time after a generation of the same document under another configuration: name normaliser, suffix and client type name, import mapping), in fresh processes (fresh hash seeds) and from %d random permutations of every JSON object's members; all outputs (or error strings) must be byte-identical; documents: one wide document with >= 3 entries in every map the generator walks (paths, operations, properties, content types, responses, headers, import mappings, discriminator mappings, x-go-type imports, encodings, security requirements, extensions), its variants with known order dependences, and random documents; non-trivial = generation succeeds", kIn+1, kPerm)
 }
 
 func onlyImportOrderDiffers(outs map[string]int) bool {
